@@ -352,8 +352,11 @@ func (s *c15Session) setupHost() {
 	_ = os.MkdirAll(s.host, 0o755)
 	s.env = []string{"HOME=" + s.home, "PATH=" + os.Getenv("PATH"), "GIT_CONFIG_NOSYSTEM=1", "LC_ALL=C", "TZ=UTC",
 		"GIT_AUTHOR_NAME=Host User", "GIT_AUTHOR_EMAIL=host@example.org", "GIT_COMMITTER_NAME=Host User", "GIT_COMMITTER_EMAIL=host@example.org",
-		"GIT_AUTHOR_DATE=2020-01-01T00:00:00Z", "GIT_COMMITTER_DATE=2020-01-01T00:00:00Z", "GIT_TERMINAL_PROMPT=0", "EDITOR=true", "GIT_EDITOR=true"}
+		"GIT_AUTHOR_DATE=2020-01-01T00:00:00Z", "GIT_COMMITTER_DATE=2020-01-01T00:00:00Z", "GIT_TERMINAL_PROMPT=0", "EDITOR=true", "GIT_EDITOR=true",
+		// every process linking 99designs/keyring would otherwise auto-launch a dbus-daemon and leave it behind
+		"DBUS_SESSION_BUS_ADDRESS=unix:path=/nonexistent"}
 	os.Setenv("HOME", s.home)
+	os.Setenv("DBUS_SESSION_BUS_ADDRESS", "unix:path=/nonexistent")
 	os.Unsetenv("XDG_CONFIG_HOME")
 	h := s.host
 	s.mustGit(h, "init", "-q", "-b", "main", ".")
